@@ -161,6 +161,8 @@ func checkC11(c *Ctx) {
 		c.undecided("R1", "grace timer", nil, "no time.AfterFunc call found in the library: the grace-period mechanism was not located")
 		return
 	}
+	armGen, armTimer := "", "" // arming counter and timer field of the (last) grace timer site
+	var armFn *ssa.Function
 	H := m.cfgPath("HeartbeatInterval")
 	D := m.cfgPath("DisconnectGracePeriod")
 	want := fmt.Sprintf("select[(3 * %s) if {(0 == %s); (5000000000 <= (3 * %s))} | 5000000000 if {((3 * %s) < 5000000000); (0 == %s)} | %s if {NOT (0 == %s)}]", H, D, H, H, D, D, D)
@@ -343,6 +345,7 @@ func checkC11(c *Ctx) {
 				})
 				return at
 			}
+			armGen, armTimer, armFn = genField, timerField, s.fn
 			adv := advances(s.fn)
 			c.check(adv != nil && dominatesInstr(adv, s.call), "R3", "arming advances the generation in "+fn, s.call, "%s is incremented before time.AfterFunc: %v", genField, adv != nil && dominatesInstr(adv, s.call))
 			for _, f := range m.Funcs {
@@ -393,6 +396,70 @@ func checkC11(c *Ctx) {
 			})
 		}
 		c.check(stops, "R4", "reconnect stops the grace timer in "+rn, firstInstr(r), "(*time.Timer).Stop reachable from the reconnect handler: %v", stops)
+		// ... on every path: the reconnect notification cancels the pending expiry whatever the
+		// instance's role is at that moment (leader at disconnect time, follower at reconnect time,
+		// leader again at expiry time are three independent facts)
+		if armGen != "" {
+			isAdvance := func(in ssa.Instruction) bool {
+				if st, ok := in.(*ssa.Store); ok {
+					if a := m.Sym.Of(st.Addr); a.Op == "addr" && a.Name == armGen {
+						if v := m.Sym.Of(st.Val); v.Op == "bin" && v.Name == "+" && symMentions(v, armGen) {
+							return true
+						}
+					}
+				}
+				return false
+			}
+			var always func(g *ssa.Function, depth int) bool
+			always = func(g *ssa.Function, depth int) bool {
+				if g == nil || g.Blocks == nil || depth > 3 {
+					return false
+				}
+				pred := func(in ssa.Instruction) bool {
+					if isAdvance(in) {
+						return true
+					}
+					if call, ok := in.(*ssa.Call); ok {
+						if h := call.Call.StaticCallee(); h != nil && h != g && m.isLib(h) && always(h, depth+1) {
+							return true
+						}
+					}
+					return false
+				}
+				first := g.Blocks[0].Instrs[0]
+				if pred(first) {
+					return true
+				}
+				// permitted skip: there is no disconnect handler at all
+				okAll, _ := mustFollow(first, pred, func(from *ssa.BasicBlock, succ int) bool {
+					l, ok := m.edgeLit(from, succ)
+					if !ok || !l.Truth || l.S.Op != "bin" || l.S.Name != "==" || len(l.S.Args) != 2 {
+						return false
+					}
+					// `handler == nil` (the handler object is rendered by its type name)
+					owner := armGen
+					if i := strings.IndexByte(owner, '.'); i >= 0 {
+						owner = owner[:i]
+					}
+					for _, a := range l.S.Args {
+						if a.V != nil {
+							if n := namedOf(a.V.Type()); n != nil && n.Obj().Name() == owner {
+								if k, isC := l.S.Args[0].V.(*ssa.Const); isC && k.Value == nil {
+									return true
+								}
+								if k, isC := l.S.Args[1].V.(*ssa.Const); isC && k.Value == nil {
+									return true
+								}
+							}
+						}
+					}
+					return false
+				})
+				return okAll
+			}
+			uncond := always(r, 0)
+			c.check(uncond, "R4", "reconnect cancels the pending expiry on every path in "+rn, firstInstr(r), "every path through the reconnect handler advances the arming counter %s (unless no disconnect handler exists): %v. If the cancel is skipped for a follower, an instance that led at disconnect time, lost leadership during the outage and was re-elected before the grace period ended is demoted by the old timer although a reconnect notification arrived.", armGen, uncond)
+		}
 		// spawns the verification under claim, tracked
 		var verify []*ssa.Function
 		eachInstr(r, func(in ssa.Instruction) {
@@ -423,6 +490,71 @@ func checkC11(c *Ctx) {
 				}
 				c.verifyFunctionShape("R4", g)
 			}
+		}
+	}
+	// who may cancel a pending expiry: the arming itself, the reconnect notification (synchronously,
+	// in the handler that receives it) and the stop units. A cancel issued later by a goroutine (the
+	// outcome of an asynchronous verification, a periodic task) cancels whatever is pending THEN - also
+	// the timer of a newer disconnect notification that no reconnect has followed.
+	if armGen != "" {
+		for _, f := range m.Funcs {
+			if f == armFn {
+				continue
+			}
+			var cancelAt ssa.Instruction
+			eachInstr(f, func(in ssa.Instruction) {
+				if st, ok := in.(*ssa.Store); ok {
+					if a := m.Sym.Of(st.Addr); a.Op == "addr" && a.Name == armGen {
+						cancelAt = in
+					}
+				}
+				if call, ok := isCallTo(valueOf(in), "(*time.Timer).Stop"); ok && armTimer != "" {
+					if a := m.Sym.Of(call.Call.Args[0]); a.Op == "path" && a.Name == armTimer {
+						cancelAt = in
+					}
+				}
+			})
+			if cancelAt == nil || m.isCtorCode(f) {
+				continue
+			}
+			var bad []string
+			seen := map[*ssa.Function]bool{}
+			var up func(g *ssa.Function, depth int)
+			up = func(g *ssa.Function, depth int) {
+				if seen[g] || depth > 8 {
+					return
+				}
+				seen[g] = true
+				if containsFn(roots, g) || containsFn(m.StopUnits, g) {
+					return
+				}
+				if g.Parent() != nil {
+					// a closure: who runs it? a go statement or timer makes the cancel asynchronous
+					for _, sp := range m.Spawns() {
+						if containsFn(sp.Targets, g) {
+							bad = append(bad, "goroutine started in "+shortFn(sp.Fn))
+							return
+						}
+					}
+					up(g.Parent(), depth+1)
+					return
+				}
+				sites := m.callers[g]
+				if len(sites) == 0 {
+					bad = append(bad, "root "+shortFn(g))
+					return
+				}
+				for _, cs := range sites {
+					if cs.IsGo {
+						bad = append(bad, "goroutine started in "+shortFn(cs.Caller))
+						continue
+					}
+					up(cs.Caller, depth+1)
+				}
+			}
+			up(f, 0)
+			sort.Strings(bad)
+			c.check(len(bad) == 0, "R4", "pending expiry cancelled only by a reconnect notification or a stop: "+shortFn(f), cancelAt, "%s advances the arming counter / stops the grace timer and is reached from: %v (allowed: the reconnect handler itself, synchronously, and the stop units). The latest notification being a disconnect, the leader would never be demoted.", shortFn(f), uniq(bad))
 		}
 	}
 	c.floor("R4", 4)
